@@ -121,6 +121,22 @@ type hist struct {
 	// at a restart to what it shows), ever is everything any instance published
 	ever         map[string]bool
 	afterGenesis bool
+
+	// ids carried by stale activations (ActivateChainReferenceID with a version not above the active
+	// one: chain info untouched, event published, open batches re-issued for the event's id)
+	staleTids []string
+}
+
+// checkpointTid finds the deployment id (the one in force, or one carried by a stale activation)
+// under which bytes hx are batch b's checkpoint.
+func (h *hist) checkpointTid(b types.OutgoingTxBatch, hx string) (string, bool) {
+	for _, tid := range append([]string{h.curTid}, h.staleTids...) {
+		want, err := b.GetCheckpoint(tid)
+		if err == nil && hex.EncodeToString(want) == hx {
+			return tid, true
+		}
+	}
+	return "", false
 }
 
 // vid: oracle ids of histories with a genesis restart are kept apart (the defect there is another one).
@@ -303,9 +319,8 @@ func (h *hist) served(how string, b types.OutgoingTxBatch, after string) {
 	tr, ok := h.cpTriple[hx]
 	if !ok {
 		// bytes never seen: the only thing they may be is a checkpoint of this batch
-		want, err := b.GetCheckpoint(h.curTid)
-		if err == nil && hex.EncodeToString(want) == hx {
-			tr = triple{h.tidID(h.curTid), h.bodyID(b), effEst(b.GasEstimate)}
+		if tid, found := h.checkpointTid(b, hx); found {
+			tr = triple{h.tidID(tid), h.bodyID(b), effEst(b.GasEstimate)}
 			h.note(b.BytesToSign, tr)
 		} else {
 			h.run.Violate("C13:query-serves-unknown-bytes", how+" serves BytesToSign that is no checkpoint the harness can account for ("+hx+")",
@@ -430,16 +445,15 @@ func (h *hist) publish(nonce uint64) {
 		return
 	}
 	// bytes never seen before: they must be the batch's checkpoint under the deployment id in force
+	// (or, after a stale activation, under the id its event carried)
 	ext := b.ToExternal()
-	want, err := ext.GetCheckpoint(h.curTid)
-	if err != nil {
-		h.t.Fatal(err)
-	}
-	if hex.EncodeToString(want) != hx {
+	tid, found := h.checkpointTid(ext, hx)
+	if !found {
 		h.run.Violate("C13:bytes-to-sign-not-checkpoint", "stored BytesToSign is not the batch's checkpoint under the current deployment id",
-			map[string]any{"kind": "evidence-history", "history": h.replay, "nonce": nonce, "bytes_to_sign": hx, "checkpoint": hex.EncodeToString(want)})
+			map[string]any{"kind": "evidence-history", "history": h.replay, "nonce": nonce, "bytes_to_sign": hx})
+		return
 	}
-	h.note(b.BytesToSign, triple{h.tidID(h.curTid), h.bodyID(ext), effEst(b.GasEstimate)})
+	h.note(b.BytesToSign, triple{h.tidID(tid), h.bodyID(ext), effEst(b.GasEstimate)})
 }
 
 // republish re-reads every stored batch: whatever it shows as BytesToSign now has been published.
@@ -685,18 +699,18 @@ func (h *hist) opConfirm() {
 		h.run.Count("op", "confirm-eager(recomputed checkpoint)")
 		if redeployed {
 			// issued <> verified on the real code: what ConfirmBatch accepts was never published
-			h.run.Count("issued-vs-verified", fmt.Sprintf("after redeploy: signature over the recomputed (unpublished) checkpoint: sig check passed=%v", !sigFail))
+			h.run.Count("issued-vs-verified", fmt.Sprintf("stored BytesToSign <> checkpoint under the id in force: signature over the self-computed checkpoint: sig check passed=%v", !sigFail))
 			cctx, _ := h.ctx.CacheContext()
 			before := h.jailed(cctx)
 			h.submit(cctx, chainName, ext, sig)
-			h.run.Count("issued-vs-verified", fmt.Sprintf("after redeploy: that signature replayed as evidence jails its signer=%v", len(h.jailed(cctx)) > len(before)))
+			h.run.Count("issued-vs-verified", fmt.Sprintf("stored BytesToSign <> checkpoint under the id in force: that signature replayed as evidence jails its signer=%v", len(h.jailed(cctx)) > len(before)))
 		}
 		h.replay = append(h.replay, map[string]any{"op": "confirm-eager", "nonce": n, "validator": v, "key": key, "error": fmt.Sprint(err)})
 		h.oracle("confirm-eager")
 		return
 	}
 	if redeployed {
-		h.run.Count("issued-vs-verified", fmt.Sprintf("after redeploy: signature over the served (published) BytesToSign: sig check passed=%v", !sigFail))
+		h.run.Count("issued-vs-verified", fmt.Sprintf("stored BytesToSign <> checkpoint under the id in force: signature over the served (published) BytesToSign: sig check passed=%v", !sigFail))
 	}
 	h.confs = append(h.confs, genuine{Val: v, Key: key, Sig: sig, Subject: ext, Cp: hex.EncodeToString(toSign), Accepted: err == nil, tr: tr})
 	h.run.Count("op", "confirm")
@@ -818,6 +832,29 @@ func (h *hist) opGenesis() {
 	h.republish()
 	h.run.Count("op", "genesis export+import")
 	h.step("OGenesis", rOk, map[string]any{"op": "genesis export + import (skyway store rebuilt from ExportGenesis)", "batches": len(gs.Batches)})
+}
+
+// opStaleActivate: ActivateChainReferenceID for test-chain with a contract version NOT above the
+// active one and another unique id.  evm leaves the chain info alone but publishes the activation
+// event; skyway re-issues the open batches for the id the event carries.
+func (h *hist) opStaleActivate() {
+	id := fmt.Sprintf("stale-%d-%d", h.scid, len(h.staleTids))
+	ver := h.scid
+	if ver > 0 && h.r.Intn(2) == 0 {
+		ver--
+	}
+	err := h.in.EvmKeeper.ActivateChainReferenceID(h.ctx, chainName, &evmtypes.SmartContract{Id: ver}, "0xdef", []byte(id))
+	if err != nil {
+		h.t.Fatalf("stale ActivateChainReferenceID: %v", err)
+	}
+	ci, _ := h.in.EvmKeeper.GetChainInfo(h.ctx, chainName)
+	if string(ci.SmartContractUniqueID) != h.curTid {
+		h.t.Fatalf("stale activation changed the id in force")
+	}
+	h.staleTids = append(h.staleTids, id)
+	h.republish()
+	h.run.Count("op", "stale activation")
+	h.step(fmt.Sprintf("OStaleActivate 1 %d", h.tidID(id)), rOk, map[string]any{"op": "stale activation", "version": ver, "unique_id": id})
 }
 
 func (h *hist) opSetTid() {
@@ -1135,6 +1172,8 @@ func runEvidence(t *testing.T, run *emit.Run, n int) {
 				h.opUnjail()
 			case p < 75:
 				h.opGenesis()
+			case p < 77:
+				h.opStaleActivate()
 			default:
 				h.opEvidence()
 			}
